@@ -17,7 +17,24 @@ func (r *run) checkC11(d *delivery, cl opClass, accepted bool, i int) {
 		if cur >= 0 && cur < len(post.Players) {
 			p := post.Players[cur]
 			of := p.AllowedActions
-			W, R, M, S := post.Status.CurrentWager, post.Status.PreviousRaiseSize, post.Status.MiniBet, p.InitialStackSize
+			// the situation is read from the chips on the table and from the
+			// harness's own tracking, not from the engine's derived fields:
+			// wager to match = highest wager, minimum raise = size of the
+			// previous bet/raise under the strictest reading, minimum bet =
+			// the larger of big blind and dealer blind, stack at the start of
+			// the round = chips behind + chips wagered this round
+			W := post.Status.CurrentWager
+			for _, q := range post.Players {
+				if q.Wager > W {
+					W = q.Wager
+				}
+			}
+			R := r.trackAfter(d, cl, accepted)
+			M := r.cfg.BB
+			if r.cfg.DealerBlind > M {
+				M = r.cfg.DealerBlind
+			}
+			S := p.StackSize + p.Wager
 			has := func(a string) bool { return contains(of, a) }
 			bad := func(sig, why string) {
 				r.viol("C11", "offer/"+sig, fmt.Sprintf("seat %d offered %v: %s; %s", cur, of, why, fmtState(post)), i)
@@ -149,7 +166,12 @@ func (r *run) checkC12(d *delivery, cl opClass, accepted bool, i int) {
 	s := cl.seat
 	L := arg0(d.st)
 	W := pre.Status.CurrentWager
-	S := pre.Players[s].InitialStackSize
+	for _, q := range pre.Players {
+		if q.Wager > W {
+			W = q.Wager // the wager to match is the highest wager on the table
+		}
+	}
+	S := pre.Players[s].StackSize + pre.Players[s].Wager
 	t := &r.tr
 	// the "size of the previous bet or raise" under every defensible
 	// reading: last full bet/raise, last increase of any kind, last increase
